@@ -20,7 +20,10 @@
 //!   len-differs            len() == number of live rules
 //!   removed-still-matches  no probe is answered with an id that is not live
 //!   incremental-differs    every probe is answered as by a router rebuilt from scratch from the live rules
-//!   clone-aliasing         retained originals of clones still give the answers (and len) they gave when cloned
+//!   clone-aliasing         retained originals of clones still give the answers (and len) they gave when cloned; W12: and
+//!                          their FULL observation (Ctx::full_obs: routes() ids, get_route, the routes listed by
+//!                          trace_request, and Route::capture of every matched route for every probe — the capture regex
+//!                          cells ARE shared with the clone and ARE written by the clone's cache(): Rio.C02.clone_isolation)
 #[path = "../router_gen.rs"]
 mod router_gen;
 
@@ -640,6 +643,7 @@ struct Retained {
     router: Arc<Router<Rule>>,
     len: usize,
     answers: Vec<Vec<String>>,
+    full: Value,
     since: String,
 }
 
@@ -652,6 +656,39 @@ impl Ctx {
 
     fn answers(&self, router: &Router<Rule>) -> Vec<Vec<String>> {
         self.probes.iter().map(|q| sorted_ids(&router.match_request(q))).collect()
+    }
+
+    /// Everything `Rio.RouterShare.Obs` lists, on the implementation: ids of routes(), and per probe the sorted match
+    /// ids, get_route, the ids listed by the trace, and the captures of every matched route (sorted maps).
+    fn full_obs(&self, router: &Router<Rule>) -> Value {
+        let mut ids: Vec<String> = router.routes().keys().cloned().collect();
+        ids.sort();
+        let per_probe: Vec<Value> = self
+            .probes
+            .iter()
+            .map(|q| {
+                let matched = router.match_request(q);
+                let mut caps: Vec<(String, BTreeMap<String, String>)> =
+                    matched.iter().map(|r| (r.id().to_string(), r.capture(q).into_iter().collect())).collect();
+                caps.sort();
+                let listed = redirectionio::router::Trace::<Rule>::get_routes_from_traces(&router.trace_request(q));
+                json!({
+                    "m": sorted_ids(&matched),
+                    "r": router.get_route(q).map(|r| r.id().to_string()),
+                    "t": sorted_ids(&listed),
+                    "c": caps,
+                })
+            })
+            .collect();
+        json!({"len": router.len(), "ids": ids, "q": per_probe})
+    }
+
+    /// does the router hold a route whose path or host carries markers (= owns shared capture cells)?
+    fn has_marker_route(router: &Router<Rule>) -> bool {
+        use redirectionio::marker::StaticOrDynamic;
+        router.routes().values().any(|r| {
+            matches!(r.path_and_query(), StaticOrDynamic::Dynamic(_)) || matches!(r.host(), Some(StaticOrDynamic::Dynamic(_)))
+        })
     }
 
     /// The oracles that compare the incremental router with its live set.
@@ -793,7 +830,8 @@ fn apply_simple(ctx: &mut Ctx, sys: &mut Sys, retained: &mut Vec<Retained>, op: 
                 // the production path: the existing router is shared behind an Arc, the new one is derived from it
                 let existing = Arc::new(std::mem::replace(&mut sys.router, Router::<Rule>::from_config(ctx.config.clone())));
                 let answers = ctx.answers(&existing);
-                retained.push(Retained { len: existing.len(), answers, router: existing.clone(), since: at.to_string() });
+                let full = ctx.full_obs(&existing);
+                retained.push(Retained { len: existing.len(), answers, full, router: existing.clone(), since: at.to_string() });
                 sys.router = RuleChangeSet { added, updated, deleted }.update_existing_router(existing);
                 *ctx.stats.entry("op:derive").or_default() += 1;
             }
@@ -864,10 +902,16 @@ fn run(case: &Value) -> Obs {
             };
             let orig_answers = ctx.answers(&sys.router);
             let orig_len = sys.router.len();
+            let orig_full = ctx.full_obs(&sys.router);
+            let shared_cells = Ctx::has_marker_route(&sys.router);
+            let mut clone_cached = false;
             let mut clone = sys.clone(); // Router: Clone (deep copy of the matchers, routes shared behind Arc)
             let mut sub_obs = Vec::new();
             for (k, sop) in sub.iter().enumerate() {
                 let sat = format!("op {n}.{k} (on the clone)");
+                if sop.get("op").and_then(|k| k.as_str()) == Some("cache") {
+                    clone_cached = true;
+                }
                 let mut so = match apply_simple(&mut ctx, &mut clone, &mut retained, sop, &sat, false) {
                     Ok(o) => o,
                     Err(e) => return Obs::invalid(&e),
@@ -883,13 +927,22 @@ fn run(case: &Value) -> Obs {
             if now != orig_answers || now_len != orig_len {
                 ctx.fail(format!("{at}: mutating the clone changed the original: answers {:?} -> {:?}, len {orig_len} -> {now_len}", orig_answers, now), "clone-aliasing");
             }
+            let now_full = ctx.full_obs(&sys.router);
+            if now_full != orig_full {
+                ctx.fail(format!("{at}: mutating the clone changed an observation of the original: {orig_full} -> {now_full}"), "clone-aliasing");
+            }
+            *ctx.stats.entry("clone-full-obs").or_default() += 1;
+            if shared_cells && clone_cached {
+                // the clone's cache() reached (budget permitting) the capture cells the original shares
+                *ctx.stats.entry("clone-cache-shared-cells").or_default() += 1;
+            }
             let mut o = Map::new();
             o.insert("k".into(), json!("clone"));
             o.insert("sub".into(), Value::Array(sub_obs));
             o.insert("orig".into(), json!({"len": now_len, "m": now}));
             if keep_clone {
                 let original = std::mem::replace(&mut sys, clone);
-                retained.push(Retained { len: orig_len, answers: orig_answers, router: Arc::new(original.router), since: at.clone() });
+                retained.push(Retained { len: orig_len, answers: orig_answers, full: orig_full, router: Arc::new(original.router), since: at.clone() });
             }
             *ctx.stats.entry("op:clone").or_default() += 1;
             o
@@ -911,6 +964,10 @@ fn run(case: &Value) -> Obs {
             let now = ctx.answers(&r.router);
             if now != r.answers || r.router.len() != r.len {
                 ctx.fail(format!("{at}: the original retained at {} changed: answers {:?} -> {:?}, len {} -> {}", r.since, r.answers, now, r.len, r.router.len()), "clone-aliasing");
+            }
+            let now_full = ctx.full_obs(&r.router);
+            if now_full != r.full {
+                ctx.fail(format!("{at}: an observation of the original retained at {} changed: {} -> {}", r.since, r.full, now_full), "clone-aliasing");
             }
         }
         let after: HashSet<String> = sys.live.keys().cloned().collect();
